@@ -334,9 +334,20 @@ pub fn is_cyclic_pool(v: &str) -> bool {
 
 const EXH_MAGIC: u32 = 0xEEEE_EE07;
 
-/// Enumerated part: every callable x every pool value as the single positional argument.
+/// Enumerated part: every callable x every pool value as the single positional argument; indices beyond that range
+/// address (callable, first argument, second argument) triples.
 fn enumerated_call(idx: usize) -> Option<String> {
     let cs = callables();
+    let n1 = cs.len() * POOL.len();
+    if idx >= n1 {
+        let j = idx - n1;
+        let (ci, rest) = (j / (POOL.len() * POOL.len()), j % (POOL.len() * POOL.len()));
+        let c = cs.get(ci)?;
+        let (a, b) = (POOL[rest / POOL.len()], POOL[rest % POOL.len()]);
+        // bounded repeat counts (see gen_snippet): a big count next to a sized value is replaced
+        let b = if is_big_count(b) && is_sized(a) && (c.ends_with("__mul__") || c.contains("repeat")) { "3" } else { b };
+        return Some(format!("emit({c}({a}, {b}))\n"));
+    }
     let (ci, pi) = (idx / POOL.len(), idx % POOL.len());
     let c = cs.get(ci)?;
     Some(format!("emit({c}({}))\n", POOL[pi]))
@@ -484,9 +495,27 @@ impl Prop for C07 {
             }
             let v = [EXH_MAGIC, i as u32];
             note_current(&v);
-            let mut r = self.run(ctx, &mut Choices::new(&v));
+            let mut r = run_case_caught(self, ctx, &v);
+            if r.sample.starts_with("<harness-level panic") {
+                r.sample = format!("{}{}", r.sample, enumerated_call(i).unwrap_or_default());
+            }
             r.replay = v.to_vec();
             sink(r);
+        }
+        // two positional arguments: all pairs in thorough, a fixed 1-in-13 stride in quick
+        let n2 = callables().len() * POOL.len() * POOL.len();
+        let stride = if ctx.tier == Tier::Thorough { 1 } else { 13 };
+        let mut j = ctx.worker * stride;
+        while j < n2 {
+            let v = [EXH_MAGIC, (n + j) as u32];
+            note_current(&v);
+            let mut r = run_case_caught(self, ctx, &v);
+            if r.sample.starts_with("<harness-level panic") {
+                r.sample = format!("{}{}", r.sample, enumerated_call(n + j).unwrap_or_default());
+            }
+            r.replay = v.to_vec();
+            sink(r);
+            j += ctx.workers * stride;
         }
     }
     fn known_probe(&self, _ctx: &mut Ctx, sig: &str) -> Option<(bool, String)> {
@@ -534,7 +563,7 @@ fn gen_history_or_enumerated(ch: &mut Choices) -> Vec<(String, String)> {
     let first = ch.raw();
     if first == EXH_MAGIC {
         let idx = ch.raw() as usize;
-        let n = callables().len() * POOL.len();
+        let n = callables().len() * POOL.len() * (1 + POOL.len());
         return vec![("prelude.star".to_owned(), PRELUDE.to_owned()), ("call.star".to_owned(), enumerated_call(idx % n.max(1)).unwrap_or_default())];
     }
     gen_history(ch)
